@@ -44,7 +44,10 @@ PASS_CALLS = {"String::from", "Some", "Ok", "Cow::Owned", "Cow::Borrowed", "Box:
               "ToString::to_string", "String::from_str", "Rc::new", "Arc::new"}
 CONV_EXPLICIT = {"make_external_component", "make_external_symbol", "escape_go_keyword", "escape_d_identifier",
                  "moonbit_identifier_stem", "mangle_name", "c_func_name", "to_rust_upper_camel_case", "to_lowercase_first",
-                 "to_csharp_ident_upper"}
+                 "to_csharp_ident_upper",
+                 # semver-canonicalised interface ids (`a:b/i@1` for `a:b/i@1.4.2`) belong to the cm32p2 "standard"
+                 # mangling only; every backend here writes legacy names, which carry the full id (name_world_key)
+                 "name_canonicalized_world_key", "canonicalized_id_of"}
 CONV_RE = re.compile(r"^to_[a-z_]*(case|ident)$")
 CASEFOLD = {"to_lowercase": str.lower, "to_uppercase": str.upper, "to_ascii_lowercase": str.lower,
             "to_ascii_uppercase": str.upper}
